@@ -76,13 +76,19 @@ class Tap(object):
             yield (self.name, x)
 
 
-STYLES = ("int", "pair", "str", "nested", "ctxonly", "alias_ctx", "alias_list")
+STYLES = ("int", "pair", "str", "nested", "ctxonly", "alias_ctx", "alias_list", "falsy")
+# values that look like "nothing": a cache must store and replay them like any other value
+FALSY = (None, 0, "", {}, [], False, 0.0, (), b"", frozenset())
+ALIAS_STYLES = ("alias_ctx", "alias_list")
 
 
 def enc(a, style):
     """Abstract value a (100 * version + index) -> concrete picklable flow value
-    (for the aliasing styles: the snapshot of the shared object at the moment it is yielded)."""
+    (for the aliasing styles: the snapshot of the shared object at the moment it is yielded;
+    for "falsy": one of ten falsy objects, told apart by version and position)."""
     first = 100 * (a // 100) + 1
+    if style == "falsy":
+        return FALSY[(a // 100 + a % 100) % len(FALSY)]
     if style == "alias_ctx":
         return (a, {"cur": a, "seen": list(range(first, a + 1))})
     if style == "alias_list":
@@ -100,7 +106,8 @@ def enc(a, style):
     raise ValueError(style)
 
 
-FORMS = ("seq", "source", "seq_calter", "source_calter", "seq_malter", "source_malter", "seq_nested_calter")
+FORMS = ("seq", "source", "seq_calter", "source_calter", "seq_malter", "source_malter", "el_calter", "el_malter",
+         "split", "seq_nested_calter", "seq_nested_malter")
 
 
 class Pipeline(object):
@@ -116,8 +123,10 @@ class Pipeline(object):
     def build(self, rc, protocol=2):
         import lena.flow
         self.taps = {k: Tap(k) for k in ("pre", "mid", "post") if self.shape.get(k)}
+        # both documented values of *method* (the same pickle module in Python 3)
+        method = "pickle" if protocol in (0, 4) else "cPickle"
         self.caches = [lena.flow.Cache(os.path.join(self.dir, self.names[c]), recompute=bool(rc[c]),
-                                       protocol=protocol) for c in range(self.nc)]
+                                       method=method, protocol=protocol) for c in range(self.nc)]
         els = []
         if "pre" in self.taps:
             els.append(self.taps["pre"])
@@ -140,6 +149,24 @@ class Pipeline(object):
         """Build the container the way `form` says and return the generator of the run."""
         import lena.core
         import lena.flow
+        if form == "split":
+            # the pipeline as the only branch of a Split (which passes its branches through
+            # meta.alter_sequence).  Split.run materialises its input block, so an upstream that yields
+            # one object mutated in place is not a lazy flow any more: those styles run as a plain Sequence
+            if self.style in ALIAS_STYLES:
+                form = "seq"
+            else:
+                return lena.core.Split([lena.core.Sequence(*self.els)]).run(self.src())
+        if form in ("el_calter", "el_malter"):
+            # alter_sequence applied to a bare Cache element (the branches of the two functions for
+            # "an element"); pipelines with more elements use the Sequence form
+            if len(self.els) == 1:
+                alter_fn = lena.flow.Cache.alter_sequence if form == "el_calter" else lena.core.alter_sequence
+                cont = alter_fn(self.els[0])
+                if isinstance(cont, lena.core.Source):
+                    return cont()
+                return cont.run(self.src())
+            form = "seq_" + form[3:]
         base, _, alter = form.partition("_")
         nested = False
         if alter.startswith("nested_"):
@@ -186,9 +213,18 @@ def run_history(workdir, scen, cmds, style="int", protocol=2, drain=True, probe=
         avals = []
         for i in range(1, lens[min(ver, len(lens)) - 1] + 1):
             a = 100 * ver + i
-            decode[repr(pl.wrap(enc(a, style)))] = a
+            decode.setdefault(repr(pl.wrap(enc(a, style))), set()).add(a)
             avals.append(a)
         return avals
+
+    def identify(x):
+        """Abstract value of a yielded object: by the repr of its snapshot; where several abstract values
+        look the same (falsy values) the one at the current position of the run is meant."""
+        cands = decode.get(repr(x), ())
+        if not cands:
+            return -1
+        here = [a for a in cands if a % 100 == state["npos"] + 1]
+        return min(here) if here else min(cands)
 
     def log(cmd, a, res, v=0, c=0):
         events.append({"cmd": cmd, "a": a, "res": res, "v": v, "c": c, "rc": list(state["rc"]),
@@ -212,7 +248,8 @@ def run_history(workdir, scen, cmds, style="int", protocol=2, drain=True, probe=
             state["gen"] = None
             log("next", type(exc).__name__, "exc")
             return "exc"
-        log("next", "", "val", v=decode.get(repr(x), -1))
+        log("next", "", "val", v=identify(x))
+        state["npos"] += 1
         return "val"
 
     def do_stop(kind):
@@ -231,6 +268,7 @@ def run_history(workdir, scen, cmds, style="int", protocol=2, drain=True, probe=
 
     def do_start(form, crash):
         pl.src.avals = values(state["ver"])
+        state["npos"] = 0
         pl.src.pulled = 0
         pl.src.crash = None
         pl.src.bad = None
@@ -409,6 +447,10 @@ def validate_shard(workdir, recs, label, chunk=4000):
     return rejected, stats
 
 
+MAX_JVMS = 6
+_TLC_SEM = None
+
+
 def _shard_job(args):
     """Worker: replay the histories of one shard, validate them, return a compact summary."""
     import hashlib
@@ -425,7 +467,14 @@ def _shard_job(args):
         ev = run_history(os.path.join(d, "fs"), scen, cmds, style=style, protocol=protocol)
         recs.append({"lens": scen["lens"], "n": max(scen["lens"]), "nc": scen["nc"], "shape": scen["shape"], "ev": ev,
                      "style": style, "protocol": protocol, "cmds": cmds, "gi": gi})
-    rejected, stats = validate_shard(d, recs, "trace")
+    # at most MAX_JVMS TLC processes at a time (memory), however many replay workers there are
+    if _TLC_SEM is not None:
+        _TLC_SEM.acquire()
+    try:
+        rejected, stats = validate_shard(d, recs, "trace")
+    finally:
+        if _TLC_SEM is not None:
+            _TLC_SEM.release()
     hashes, bad = [], []
     for i, rec in enumerate(recs):
         if i in rejected:
@@ -499,20 +548,26 @@ def check_histories(ctx, items, what):
     if not items:
         return 0
     nsh = max(1, min(ctx.nworkers, (len(items) + 199) // 200))
+    if len(items) < 40000:
+        nsh = min(nsh, MAX_JVMS)      # one wave of TLC runs
     shards = [[] for _ in range(nsh)]
     for gi, it in enumerate(items):
         shards[gi % nsh].append((gi,) + tuple(it))
     jobs = [(ctx.workdir, "%s%d" % (what, k), sh, ctx.repo) for k, sh in enumerate(shards)]
+    global _TLC_SEM
     if nsh == 1:
+        _TLC_SEM = None
         outs = [_shard_job(jobs[0])]
     else:
         mp = multiprocessing.get_context("fork")
+        _TLC_SEM = mp.Semaphore(MAX_JVMS)     # inherited by the forked workers
         pool = mp.Pool(nsh)
         try:
             outs = pool.map(_shard_job, jobs)
         finally:
             pool.close()
             pool.join()
+            _TLC_SEM = None
     nacc = 0
     worst = {}
     for o in outs:
